@@ -604,6 +604,7 @@ var Prop = &harness.Prop{
 		}
 		u = append(u, serverHelloSweepUnit(true), serverHelloSweepUnit(false))
 		u = append(u, refUnits()...)
+		u = append(u, renegUnits()...)
 		return u
 	},
 }
